@@ -146,3 +146,21 @@ def real_sanity(out, specs, obs, pid):
             out.violation("hang:" + str(sp.get("what")), "the build command did not finish within %s s" % ob.get("seconds"), slim(sp, ob))
         if ob.get("harness_error"):
             out.broke("harness", ob.get("harness_error"))
+
+
+def sites_report(out, tooldir, kinds):
+    """when the audited inventory (Tie/SitesTie.v) and the inventory of the current tree differ, name the sites"""
+    import json as _json
+    from vlib import gen as _gen
+    audited = set(re.findall(r'\(s "([^"]*\|[^"]*\|[0-9a-f]{12})"\)', "".join(open(os.path.join(build.VERIF, "coq", "Tie", f)).read() for f in ("SitesOrderTie.v", "SitesPanicTie.v"))))
+    now = {}
+    for x in _json.load(open(os.path.join(tooldir, "sites.json"))):
+        if x["kind"] in kinds:
+            now[_gen.site_id(x)] = x
+    added = [dict(now[i], id=i) for i in sorted(set(now) - audited)]
+    kinds_audited = audited  # ids carry no kind: removed = audited ids that are in no current list of any kind
+    allnow = {_gen.site_id(x) for x in _json.load(open(os.path.join(tooldir, "sites.json")))}
+    removed = sorted(audited - allnow)
+    if added:
+        out.broke("Tie/Sites*Tie.v: unaudited sites", {"unaudited": [{k: a[k] for k in ("kind", "pkg", "func", "text")} for a in added][:20], "no_longer_present": removed[:20]})
+    return added, removed
